@@ -48,18 +48,21 @@ Refs(p) == Common
 Captured(r, S) == r.how \in {"bare", "thirdparty", "method"} /\ (r.name \in S \/ (r.how = "method" /\ "no-prelude" \in S))
 
 \* variants: clean scope, one shadowed name, all names shadowed, generated trait named like a marker trait, no_std crate
-Variants == { [kind |-> "clean", shadows |-> {}, name |-> "T"] }
-            \cup { [kind |-> "shadow", shadows |-> {n}, name |-> "T"] : n \in ShadowNames }
-            \cup { [kind |-> "shadow-all", shadows |-> ShadowNames, name |-> "T"] }
-            \cup { [kind |-> "marker-name", shadows |-> {}, name |-> n] : n \in {"Send", "Sync"} }
-            \cup { [kind |-> "no_std", shadows |-> {}, name |-> "T"] }
+Variants == { [kind |-> "clean", shadows |-> {}, name |-> "T", dname |-> "DelegateN"] }
+            \cup { [kind |-> "shadow", shadows |-> {n}, name |-> "T", dname |-> "DelegateN"] : n \in ShadowNames }
+            \cup { [kind |-> "shadow-all", shadows |-> ShadowNames, name |-> "T", dname |-> "DelegateN"] }
+            \cup { [kind |-> "marker-name", shadows |-> {}, name |-> n, dname |-> "DelegateN"] : n \in {"Send", "Sync"} }
+            \* the user's DELEGATION trait (`delegate_by = <name>`, static dependency inversion) named like something the macro refers to:
+            \* only `ref` and the deprecated `Borrow` are reserved values of that option
+            \cup { [kind |-> "deleg-name", shadows |-> {}, name |-> "T", dname |-> n] : n \in {"AsRef", "Send", "Sync", "Impl", "Future"} }
+            \cup { [kind |-> "no_std", shadows |-> {}, name |-> "T", dname |-> "DelegateN"] }
             \* a module that opts out of the prelude: `#![no_implicit_prelude]` - nothing at all is imported
-            \cup { [kind |-> "no-prelude", shadows |-> {"no-prelude"}, name |-> "T"] }
+            \cup { [kind |-> "no-prelude", shadows |-> {"no-prelude"}, name |-> "T", dname |-> "DelegateN"] }
 \* async_trait's own output is outside entrait's control: its `Box` must stay visible
-Applicable(p, v) == ~(p = "di-dyn-at" /\ ("Box" \in v.shadows \/ v.kind = "no-prelude"))
+Applicable(p, v) == ~(p = "di-dyn-at" /\ ("Box" \in v.shadows \/ v.kind = "no-prelude")) /\ (v.kind = "deleg-name" => p = "di-static")
 Inputs == { [prog |-> p, variant |-> v] : p \in Progs, v \in Variants }
 InputsOK == { i \in Inputs : Applicable(i.prog, i.variant) }
-Effective(v) == v.shadows \cup (IF v.kind = "marker-name" THEN {v.name} ELSE {})
+Effective(v) == v.shadows \cup (IF v.kind = "marker-name" THEN {v.name} ELSE {}) \cup (IF v.kind = "deleg-name" THEN {v.dname} ELSE {})
 PredOk(i) == \A r \in Refs(i.prog) : ~Captured(r, Effective(i.variant))
 
 VARIABLES i, todo, captured, pc
@@ -74,5 +77,5 @@ Spec == Init /\ [][ResolveRef \/ Done]_vars
 \* Level 1 at design level: nothing the generator writes is at the mercy of the scope
 Refines == pc = "done" => captured = {}
 ASSUME DumpCases => ndJsonSerialize(IOEnv.OUT, SetToSeq({ [prog |-> x.prog, kind |-> x.variant.kind, shadows |-> SetToSeq(x.variant.shadows),
-                                                          name |-> x.variant.name, pred |-> PredOk(x)] : x \in InputsOK }))
+                                                          name |-> x.variant.name, dname |-> x.variant.dname, pred |-> PredOk(x)] : x \in InputsOK }))
 =============================================================================
